@@ -21,6 +21,11 @@ def encodeDoc (w : Nat) (d1 d2 : Nat) (elems : List Elem) : Doc :=
   elems.map (fun e => (encodeToks d1 (itemsOf Params.time w d1 e.1), encodeToks d2 (itemsOf Params.hpx w d2 e.2)))
     ++ [([.depth d1], [.depth d2])]
 
+/-- JSON writer (`cellmoc2d_to_json_aladin`): the same document with single cells only. -/
+def encodeDocJson (w : Nat) (d1 d2 : Nat) (elems : List Elem) : Doc :=
+  elems.map (fun e => (encodeToks d1 (cellItemsOf Params.time w d1 e.1), encodeToks d2 (cellItemsOf Params.hpx w d2 e.2)))
+    ++ [([.depth d1], [.depth d2])]
+
 /-- Reader on a token-level document. -/
 def decodeDoc (w : Nat) : Doc → Except CErr (Nat × Nat × List Elem)
   | [] => .ok (0, 0, [])
